@@ -202,6 +202,7 @@ def gen(rng, tier):
     elif r < 0.55:
       ops.append({'op': 'interactive', 'target': 'T%d' % rng.randint(0, i),
                   'raises': rng.random() < 0.5,
+                  'base_exc': rng.random() < 0.3,
                   'how': rng.choice(['with', 'with', 'enter_exit'])})
   return {'ops': ops}
 
@@ -528,7 +529,7 @@ def run(case):
         exec('def %s(a=1, b=2):\n  return (%r, a, b)\n' % (nm, nm), g)  # pylint: disable=exec-used
         return g[nm]
 
-      class Boom(Exception):
+      class Boom(BaseException if op.get('base_exc') else Exception):
         pass
       exc = None
       inside_exc = None
